@@ -94,7 +94,7 @@ class PathEval:
                 try:
                     sub = PathEval(self.f, cb, self.max_paths)
                     sub.depth = self.depth + 1
-                    sub._walk(0, {1: fterm, 2: argv}, (), frozenset())
+                    sub._walk(0, {1: fterm, 2: argv} if argv is not None else {1: fterm}, (), frozenset())
                     return [(c2, v2) for c2, v2, _ in sub.out]
                 except TooComplex:
                     return None
@@ -113,6 +113,16 @@ class PathEval:
             a, b = args
             return [((self.canon_cond(("binop", "Ne", b, ("int", 0)), True),), some(("binop", "Div", a, b))),
                     ((self.canon_cond(("binop", "Ne", b, ("int", 0)), False),), none)]
+        if short in ("then", "then_some") and len(args) == 2 and ("bool" in name) and not name.startswith(self.f.crate + "::"):
+            # `cond.then(|| v)` / `cond.then_some(v)`: Some(v) exactly when cond holds (the closure is evaluated only then)
+            c = args[0]
+            yes, no = self.canon_cond(c, True), self.canon_cond(c, False)
+            if short == "then_some":
+                return [((yes,), some(args[1])), ((no,), none)]
+            r = self._apply(args[1], None)
+            if r is None:
+                return None
+            return [((yes,) + tuple(c2), some(v2)) for c2, v2 in r] + [((no,), none)]
         if name.startswith(opt) and args and args[0][0] == "agg" and args[0][1] == opt:
             o = args[0]
             is_some = o[2] == "Some"
@@ -129,6 +139,21 @@ class PathEval:
                     return [((), none)]
                 r = self._apply(args[1], o[3][0])
                 return [(c, some(v)) for c, v in r] if r is not None else None
+            if short == "and_then" and len(args) == 2:
+                if not is_some:
+                    return [((), none)]
+                return self._apply(args[1], o[3][0])
+            if short == "filter" and len(args) == 2:
+                if not is_some:
+                    return [((), none)]
+                r = self._apply(args[1], ("ref", o[3][0]))
+                if r is None:
+                    return None
+                out = []
+                for c2, v2 in r:
+                    out.append((tuple(c2) + (self.canon_cond(v2, True),), o))
+                    out.append((tuple(c2) + (self.canon_cond(v2, False),), none))
+                return out
             if short == "unwrap_or" and len(args) == 2:
                 return [((), o[3][0] if is_some else args[1])]
             if short in ("copied", "cloned") and len(args) == 1:
